@@ -122,7 +122,7 @@ func runC10(r *vh.Run, i int) {
 	}
 	mk := func(kind vh.StoreKind, root string) *hist {
 		rng := r.Rand(i)
-		u := vh.GenUniverse(rng, vh.UOpts{Aliasing: true, Algs: i%3 == 0, Docker: i%2 == 1, Tag: fmt.Sprint(i)})
+		u := vh.GenUniverse(rng, vh.UOpts{Aliasing: true, Algs: i%3 == 0, Docker: i%2 == 1, BareMT: i%4 == 2, MTSkew: i%4 == 3, Tag: fmt.Sprint(i)})
 		pol := vh.Policy{Untagged: rng.Intn(2) == 0, Dangling: rng.Intn(2) == 0, WithSubj: rng.Intn(2) == 0, EmptyRepo: rng.Intn(2) == 0, Grace: time.Hour}
 		if rng.Intn(2) == 0 {
 			pol.Grace = -1
@@ -238,6 +238,50 @@ func runC10(r *vh.Run, i int) {
 			}
 			for _, k := range known {
 				hd.viol(strings.Replace(k, "second-pass", "memdir", 1), "memory-over-directory vs directory: "+diffSnap(hd.w, a, b))
+			}
+		}
+		if !hd.bad {
+			// the layered store keeps following the specification when content that also lies in the directory is
+			// deleted, pushed again (a memory copy then shadows the file) and deleted again
+			m := hd.w.Repos["r"]
+			var cands []string
+			for d := range m.Stored {
+				if m.Mans[d] == nil && hd.w.U.BlobByD[d] != nil {
+					cands = append(cands, d)
+				}
+			}
+			sort.Strings(cands)
+			for k := 0; k < 3 && len(cands) > 0 && !hd.bad; k++ {
+				d := cands[ctl.Intn(len(cands))]
+				bl := hd.w.U.BlobByD[d]
+				var ops []string
+				switch ctl.Intn(3) {
+				case 0:
+					ops = []string{"delete", "push", "delete"}
+				case 1:
+					ops = []string{"push", "delete"}
+				default:
+					ops = []string{"push", "delete", "push"}
+				}
+				for _, op := range ops {
+					if op == "push" {
+						hd.w.PushBlob("r", bl)
+					} else {
+						hd.w.DeleteBlob("r", d, bl.Name) // (the property speaks of read requests: the status of the DELETE itself is not judged here)
+					}
+					for _, meth := range []string{"HEAD", "GET"} {
+						g := hd.w.Do(vh.Req{Method: meth, URL: "/v2/r/blobs/" + d})
+						want := 404
+						if m.Stored[d] != nil {
+							want = 200
+						}
+						r.Count("memdir_operation_reads", 1)
+						if g.Status != want || (want == 200 && meth == "GET" && string(g.Body) != string(bl.B)) {
+							hd.viol("memdir-operation", fmt.Sprintf("memory over directory: after %v of blob %s (which also lies in the directory) %s answers %d, specification says %d", ops, bl.Name, meth, g.Status, want))
+							break
+						}
+					}
+				}
 			}
 		}
 		_ = ms.Close()
